@@ -233,7 +233,7 @@ Definition icp_forward (cfg : rtb_cfg) (st0 : rtb_state) (init : option se3elt) 
   end.
 End Oracles.
 
-(* flat-list interfaces for the enclosure route *)
+(* flat-list interfaces for the enclosure route of the conversion tie *)
 Definition se3_out (o : option se3elt) : list F := match o with Some X => SE3_l X | None => [] end.
 Definition sim3_out (o : option sim3elt) : list F := match o with Some X => Sim3_l X | None => [] end.
 (* the conversions alone, on a matrix given entry by entry (stage 2 of the conversion tie: stage 1
@@ -295,7 +295,9 @@ Definition stf_bad (cs : list stf_case) : list nat :=
 
 (* ICP transition: temporal_k, target, the knn indices, (U, Sg, Vh) of that pass, the
    implementation's temporal_{k+1}; the pass of the model (with these oracle answers) must give
-   the same cloud within tol_p.  knn contract (checked exactly, up to tol_k on squared distances):
+   the same cloud within tol_p (the pass applies p |-> R p + t with (R, t) = svdtf_mat: by
+   Proofs/Align.svdtf_returns this is the action of the SE3 element svdtf returns, which keeps the
+   evaluator rational).  knn contract (checked exactly, up to tol_k on squared distances):
    the index is in range and no target point is closer.  Codes: 1 svd contract, 2 knn contract,
    4 next cloud differs *)
 Definition sqd (a b : Q * Q * Q) : Q := sqnorm (vsub a b).
